@@ -37,7 +37,7 @@ def draw_k_n(rng, alg, cls):
     """Draw (k, n) inside the cost envelope of DESIGN §1."""
     if alg == "cbldm":
         return 2, rng.randint(1, 12)
-    big = cls in ("big", "huge")
+    big = cls in ("big", "huge", "bignear")
     if alg in ("greedy", "roundrobin", "multifit", "kk"):
         k = rng.choice([1, 2, 2, 3, 3, 4, 5, 7, 9, 12, 20, 30])
         n = rng.choice([rng.randint(1, 12), rng.randint(1, 12), rng.randint(13, 60), rng.randint(61, 300)])
@@ -60,14 +60,14 @@ def draw_k_n(rng, alg, cls):
 
 
 def big_cls(cls):
-    return cls in ("big", "huge")
+    return cls in ("big", "huge", "bignear")
 
 
 def draw_partition_case(rng, alg=None, cls=None, pres=None, algs=ALL_PART, classes=None):
     alg = alg or rng.choice(algs)
-    classes = classes or ("small", "zeros", "equal", "ties", "kgtn", "big", "huge", "grid", "perfect", "powers", "onehuge")
+    classes = classes or ("small", "zeros", "equal", "ties", "kgtn", "big", "huge", "bignear", "grid", "perfect", "powers", "onehuge")
     cls = cls or rng.choice(classes)
-    if alg == "ilp" and cls in ("big", "huge", "powers", "onehuge", "perfect", "nearperfect"):
+    if alg == "ilp" and cls in ("big", "huge", "bignear", "powers", "onehuge", "perfect", "nearperfect"):
         cls = "small"
     k, n = draw_k_n(rng, alg, cls)
     values = gen.part_values(rng, cls, n, k)
@@ -190,7 +190,7 @@ def draw_pack_case(rng, alg=None, cls=None, pres=None, algs=PACKERS, nmax=None, 
 
 def draw_cover_case(rng, alg=None, cls=None, pres=None, nmax=None):
     alg = alg or rng.choice(COVERERS)
-    cls = cls or rng.choice(["random", "threshold", "toosmall", "equal", "planted", "worst"])
+    cls = cls or rng.choice(["random", "threshold", "toosmall", "equal", "planted", "worst", "widerange"])
     C, v = gen.cover_instance(rng, cls, nmax or rng.choice([8, 12, 40, 150]))
     order = rng.choice(gen.ORDERS)
     return {"kind": "cover", "alg": alg, "C": C, "values": gen.arrange(rng, v, order), "cls": cls, "order": order,
